@@ -266,15 +266,23 @@ def check_limit(model, rep, sx):
     msx = sx     # same Ctx: function atoms shared
     mspec = SpecCtx(msx, 'DCMotor', symbols=SYMS)
     laws = {}
+    from sa.facts import positive_atoms
+    from sa import sx as _sxm
+    saved = set(_sxm.POSITIVE_ATOMS)
+    _sxm.POSITIVE_ATOMS.update(positive_atoms(SX(model), 'DCMotor'))      # constructor facts of the motor (Tmax, imax, w0 > 0)
     for meth, suffix in (('compute_torque', '__driving_torque'), ('compute_electric_current', '__electric_current')):
         mm, mpaths, others = extract(msx, model, meth, suffix)
         comp = (COMPUTABLE + ' and ') if meth == 'compute_torque' else ''
         sg = mspec.guards(comp + 'abs(D) > i0/imax and D > i0/imax')
         hits = [p for p in mpaths if compatible(p[0], sg, ctx)]
         if len(hits) != 1:
+            _sxm.POSITIVE_ATOMS.clear()
+            _sxm.POSITIVE_ATOMS.update(saved)
             rep.cannot('C15.limit-identity', 'StartLimitCurrent x DCMotor', f'positive branch of {meth} not unique', mm.loc)
             return
         laws[meth] = hits[0][1].term
+    _sxm.POSITIVE_ATOMS.clear()
+    _sxm.POSITIVE_ATOMS.update(saved)
     # rename rule atoms to motor atoms
     ren = {}
     for rule_sym, motor_sym in (('w', 'w'), ('w0', 'w0'), ('imax', 'imax'), ('i0', 'i0')):
